@@ -154,6 +154,7 @@ US(s, L) ==
                \o (IF s.hasWith THEN <<W(" "), W("with"), W(" ")>> \o UE(s.with, L) ELSE <<>>)
                \o (IF s.only THEN <<W(" "), W("only")>> ELSE <<>>)
                \o (IF s.sbx THEN <<W(" "), W("sandboxed")>> ELSE <<>>))
+      [] s.k = "spaceless" -> Tag(<<W("spaceless")>>) \o UBody(s.body, L) \o Tag(<<W("endspaceless")>>)
       [] s.k = "apply" ->
            Tag(<<W("apply"), W(" "), W(s.f)>> \o
                (IF s.args = <<>> THEN <<>> ELSE <<W("(")>> \o UEList(s.args, L) \o <<W(")")>>))
